@@ -371,6 +371,21 @@ def parallelRule (ty : String) : Except String (Option (Bool × Bool)) :=
   else if ty = "C" then .ok (some (true, true))
   else .ok none
 
+/-- `_series_span_is_private(aset)`: every node joining two members of the series set (an equipotential
+    class met by at least two member terminals) is not the reference node and no component other than the
+    members and wires is attached to any of its names (any terminal: control nodes of E/G, O, P, …) -/
+def spanPrivate (net : Net K) (aset : List String) : Bool :=
+  let cls := nodeClasses net
+  let nm := nodeMap cls
+  let members := net.filter (fun e => aset.contains e.name)
+  let keys := members.flatMap (fun e => (e.nodes.take 2).map nm)
+  let joints := (keys.filter (fun k => (keys.filter (· = k)).length ≥ 2)).eraseDups
+  joints.all (fun k =>
+    let names := match cls.find? (fun c => classKey c = k) with | some c => c | none => [k]
+    names.all (fun n =>
+      !(n.startsWith "0") &&
+      net.all (fun e => !(e.nodes.contains n) || aset.contains e.name || isWire e)))
+
 section sweep
 variable [Add K] [Div K] [Neg K] [OfNat K 0] [OfNat K 1] [DecidableEq K]
 
@@ -386,8 +401,10 @@ def bindAll {α : Type} (xs : List (Except String α)) (f : α → List (Except 
 def combineSweep (net0 : Net K) (skip : List String) (series : Bool) : List (Except String (Sweep K)) :=
   let sets := if series then seriesSets net0 else parallelSets net0
   let start : Sweep K := { net := net0, taken := net0.map (·.name) }
-  sets.foldl (fun outs aset =>
-      let aset := aset.filter (fun n => !(skip.contains n))
+  sets.foldl (fun outs aset0 =>
+      -- a series set whose span is not private (judged on the netlist the sweep started from) is left alone
+      if series && !(spanPrivate net0 aset0) then outs else
+      let aset := aset0.filter (fun n => !(skip.contains n))
       bindAll outs (fun st =>
         if aset.any (fun n => !(st.net.any (·.name = n))) then [.error "KeyError"]
         else
@@ -420,15 +437,23 @@ def eltDangling (net : Net K) (e : Elt K) : Bool :=
 def eltDisconnected (net : Net K) (e : Elt K) : Bool :=
   e.ty ≠ "XX" && e.nodes.all (nodeDangling net)
 
+/-- `_keep_dangling`: a dangling node of the component is in `keep_nodes`, or an open-circuit component `O`
+    (not counted as a connection, but observing the node's voltage) is attached to it -/
 def keepDangling (net : Net K) (keep : List String) (e : Elt K) : Bool :=
-  e.nodes.any (fun n => nodeDangling net n && keep.contains n)
+  e.nodes.any (fun n => nodeDangling net n &&
+    (keep.contains n ||
+     net.any (fun f => f.ty = "O" && f.nodes.contains n && (f.name != e.name || f.nodes != e.nodes))))
+
+/-- `cpt.has_ic`: an inductor or capacitor with an explicit initial condition (it makes the circuit an
+    initial-value problem and is never removed) -/
+def hasIC (e : Elt K) : Bool := (e.ty = "L" || e.ty = "C") && e.ic.isSome
 
 def removeDangling (net : Net K) (skip keep : List String) : Net K × Bool :=
-  let out := net.filter (fun e => !(eltDangling net e && !(skip.contains e.name) && !(keepDangling net keep e)))
+  let out := net.filter (fun e => !(eltDangling net e && !(skip.contains e.name) && !(hasIC e) && !(keepDangling net keep e)))
   (out, out.length ≠ net.length)
 
 def removeDisconnected (net : Net K) (skip keep : List String) : Net K × Bool :=
-  let out := net.filter (fun e => !(eltDisconnected net e && !(skip.contains e.name) && !(keepDangling net keep e)))
+  let out := net.filter (fun e => !(eltDisconnected net e && !(skip.contains e.name) && !(hasIC e) && !(keepDangling net keep e)))
   (out, out.length ≠ net.length)
 
 /-! ### `simplify` -/
